@@ -5,6 +5,7 @@ and the time limit of around/balanced: see DESIGN.md §4 C14 for what is partial
 -/
 import LithiumProofs.MinimizeLog
 import LithiumProofs.PairsTime
+import LithiumProofs.PairsMove
 import LithiumProofs.MinClause
 import LithiumProofs.Util
 import LithiumModel.Args
@@ -311,6 +312,29 @@ theorem C14_deadline_pairs (cfg : Cfg) (o : Oracle) (clk : Clock) (t : Testcase)
     · have := hmono k a.tIdx hge
       omega
   exact ⟨late _ ka, late _ kb⟩
+
+/-- the time limit in minimize-balanced WITH the experimental move: every proposal — removal or move —
+is made at a moment when the clock has not passed `start + limit` (the move loop checks the clock at
+its head and between its two attempts) -/
+theorem C14_deadline_move (cfg : Cfg) (o : Oracle) (clk : Clock) (t : Testcase)
+    (limit : Nat) (hl : cfg.stopAfter = some limit) :
+    (∀ a ∈ (balancedMove cfg o clk t).atts, clk a.tIdx ≤ clk 0 + limit) ∧
+    ((∀ i j, i ≤ j → clk i ≤ clk j) → ∀ k, clk k > clk 0 + limit →
+      ∀ a ∈ (balancedMove cfg o clk t).atts, a.tIdx < k) := by
+  have hstop : stopAt cfg clk = some (clk 0 + limit) := by simp [stopAt, hl]
+  have key : ∀ a ∈ (balancedMove cfg o clk t).atts, clk a.tIdx ≤ clk 0 + limit := by
+    intro a ha
+    have := balancedMove_onTime cfg o clk t a ha
+    rw [hstop] at this
+    simp only [deadlineAt, decide_eq_false_iff_not, Nat.not_lt] at this
+    exact this
+  refine ⟨key, ?_⟩
+  intro hmono k hk a ha
+  have h1 := key a ha
+  rcases Nat.lt_or_ge a.tIdx k with hlt | hge
+  · exact hlt
+  · have := hmono k a.tIdx hge
+    omega
 
 /-- non-vacuity: the clock jumps past the limit after the second test of minimize-around: exactly
 two tests are run -/
